@@ -223,6 +223,9 @@ func rangeObligation(t *Term, k types.BasicKind) {
 	if !intModeOn() || t.isConst() {
 		return
 	}
+	if EX.spec > 0 {
+		panic(specAbort{"range obligation inside a speculative region"})
+	}
 	w, signed := kindWidth(k)
 	var lo, hi *big.Int
 	if signed {
